@@ -3,7 +3,7 @@
    (TaskGraph.notify_task_completion); the element returned by random.choices is the INPUT `draw`
    (its index among the children); the contract of random.choices (never an element of weight 0) is a
    hypothesis on the draw. *)
-From Coq Require Import ZArith Bool List.
+From Coq Require Import ZArith Bool List Lia ZifyBool.
 Import ListNotations.
 From Verif Require Import Model.Val Gen.Src_Task Gen.Src_TaskGraph Model.TaskGraph
   Proofs.TaskGraphP Proofs.TaskGraphP1 Proofs.TaskGraphP2 Proofs.TaskGraphP3 Proofs.TaskGraphP4
@@ -72,6 +72,31 @@ Theorem C07_resolved : forall g t fin draw g' rel canc,
             forall c, In c (tg_children g t) -> c <> k -> tg_prob g c = 0.
 Proof. exact notify_resolved. Qed.
 Print Assumptions C07_resolved.
+
+(* a child that was cancelled before the conditional completed has probability 0 (TaskGraph.cancel sets
+   it, cancel_post) and weights adding up to LESS than 1 are accepted: the conditional still resolves, and
+   under the contract of random.choices the cancelled child is not the one released *)
+Theorem C07_cancelled_child_not_released : forall g t fin draw g' rel canc c,
+  notify_completion g t fin draw = (g', Ok (rel, canc)) -> tg_conditional g t = true ->
+  all_children_zero g t = false ->
+  (forall k, nth_z (tg_children g t) draw = Some k -> 0 < tg_prob g k) ->
+  tg_prob g c = 0 -> ~ In c rel.
+Proof.
+  intros g t fin draw g' rel canc c H Hc Hz Hor Hp Hin.
+  destruct (notify_one _ _ _ _ _ _ _ H Hc Hz) as (k & Hk & -> & _ & Hpos).
+  destruct Hin as [<-|[]]. specialize (Hpos Hor). lia.
+Qed.
+Print Assumptions C07_cancelled_child_not_released.
+(* the sum of the children's weights never exceeds 1 when the notification succeeds *)
+Theorem C07_weights_at_most_one : forall g t fin draw g' rel canc,
+  notify_completion g t fin draw = (g', Ok (rel, canc)) -> tg_conditional g t = true ->
+  all_children_zero g t = false -> zsum (map (tg_prob g) (tg_children g t)) <= g_den g.
+Proof.
+  intros g t fin draw g' rel canc H Hc Hz.
+  destruct (notify_cond_unfold _ _ _ _ _ _ _ H Hc Hz) as (_ & _ & _ & Hs & _).
+  unfold probs_refused, probs_rejected in Hs. lia.
+Qed.
+Print Assumptions C07_weights_at_most_one.
 
 (* every child has probability 0 (all branches resolved away): nothing is released, every branch is cancelled *)
 Theorem C07_all_zero : forall g t fin draw g' rel canc,
